@@ -232,7 +232,9 @@ def sort_by_dimensionality(
             if cname_dim in dim_order:
                 return dim_order.index(cname_dim), cname
 
-        raise KeyError(f"Unit {unit_name} (aka {cname}) has no recognized dimensions")
+        # Units whose dimensions are not listed in dim_order (e.g. pixel, which is a
+        # [printing_unit]) are still valid units: sort them after the listed ones.
+        return len(dim_order), cname
 
     return sorted(items, key=sort_key)
 
